@@ -82,6 +82,11 @@ def cmd_manifest(args):
     na = json.load(open(na_path)) if os.path.exists(na_path) else []
     claimed = {c["property_id"] for c in checks}
     na = [x for x in na if x["property_id"] not in claimed]
+    listed = {x["property_id"] for x in na}
+    for line in open(os.path.join(ROOT, "properties.jsonl")):
+        pid = json.loads(line)["id"]
+        if pid not in claimed and pid not in listed:
+            na.append({"property_id": pid, "reason": "not claimed yet: the Coq model / correspondence check for this property is still under construction (no technical obstacle; see DESIGN.md section 5)"})
     hooks = json.load(open(os.path.join(ROOT, "checks", "hooks.json")))
     man = {
         "version": 1,
